@@ -135,27 +135,30 @@ def shapeOk : List DimSpec → List Nat → Bool
   | s :: ss, d :: ds => dimOk s d && shapeOk ss ds
   | _, _ => false
 
-/-- `AbstractArray.validate` (trait_numeric.py:122-162): sequences go through
-`asarray`, arrays of another dtype through `astype(dtype, casting=…)`, then the
-shape is compared; every exception ends in `self.error`.  `asarray` and the
-castability are parameters. -/
+/-- First half of `AbstractArray.validate` (trait_numeric.py:126-138): the array
+the value becomes — sequences go through `asarray(value[, dtype])`, arrays of
+another dtype through `astype(dtype, casting=…)` — with its shape; `none` when
+an exception ends in `self.error`.  `asarray` and castability are parameters. -/
+def arrayStage1 (E : Env) (dtype : Option Nat) (casting : Nat) (v : Val) : Option (Val × List Nat) :=
+  match v with
+  | .atom (.ndarray d s) =>
+    match dtype with
+    | none => some (v, s)
+    | some t =>
+      if d == t then some (v, s)
+      else if E.canCast d t casting then some (.atom (.ndarray t s), s) else none
+  | .tuple _ _ | .list _ =>
+    match E.asarray v dtype with
+    | .ok (d, s) => some (.atom (.ndarray d s), s)
+    | .error _ => none
+  | _ => none
+
+/-- `AbstractArray.validate` (trait_numeric.py:122-162): second half, the shape
+is compared (141-158). -/
 def arrayValidate (E : Env) (dtype : Option Nat) (shape : Option (List DimSpec)) (casting : Nat) (v : Val) : Res :=
-  let arr : Option (Val × Nat × List Nat) :=
-    match v with
-    | .atom (.ndarray d s) =>
-      match dtype with
-      | none => some (v, d, s)
-      | some t =>
-        if d == t then some (v, d, s)
-        else if E.canCast d t casting then some (.atom (.ndarray t s), t, s) else none
-    | .tuple _ _ | .list _ =>
-      match E.asarray v dtype with
-      | .ok (d, s) => some (.atom (.ndarray d s), d, s)
-      | .error _ => none
-    | _ => none
-  match arr with
+  match arrayStage1 E dtype casting v with
   | none => .traitError
-  | some (w, _, s) =>
+  | some (w, s) =>
     match shape with
     | none => .ok w
     | some sh => if shapeOk sh s then .ok w else .traitError
